@@ -43,7 +43,7 @@ def _(cls: Opaque(), database: Opaque()) -> Obj(QuickDatabase, db_hash=Const(b""
     pure()
 
 
-@contract("spsdk.utils.database:DatabaseManager._get_quick_info_db")
+@contract("spsdk.utils.database:DatabaseManager._get_quick_info_db", replay=False)  # counter-models are environment behaviours, not inputs
 def _(cls: Const(DatabaseManager)) -> Opaque():
     # (a) totality: there is no raises clause, so every escaping exception fails a `noraise:<Exception>` obligation
     # (b) never trusted: whatever is returned carries the hash of the live data; it is either built from the live database
@@ -69,7 +69,7 @@ def _(path: Opaque(), search_paths: Opaque()) -> Const("<live defaults>"):
     pure()
 
 
-@contract("spsdk.utils.database:Database.DatabaseData.__init__")
+@contract("spsdk.utils.database:Database.DatabaseData.__init__", replay=False)
 def _(self: Obj(Database.DatabaseData), path: Const("/data"), restricted_data_path: Const(None), addons_data_path: Const(None),
       complete_load: bool):
     # (a) totality: no raises clause.  (b) cached content is used only after validation against the live data:
